@@ -171,6 +171,8 @@ def step_into(v, step):
     if k == 'f':
         if isinstance(v, Ptr):
             return v  # Box -> Unique -> NonNull -> pointer internals
+        if isinstance(v, Opaque):
+            return v  # a field of an opaque external value is itself opaque (e.g. `..Default::default()` of an swc options struct)
         if v.fields is None:
             FORCE[0](v)
         return v.fields[step[1]]
